@@ -37,6 +37,18 @@ MUTS = [
   "        \"\"\"creates implicit transition to next on elapsed >= value\n\n           timeout 5.0\n        \"\"\"\n        self.verifyCurrentContext(tokens, index)\n\n        try:\n            value =  abs(Convert2Num(tokens[index]))",
   "        \"\"\"creates implicit transition to next on elapsed >= value\n\n           timeout 5.0\n        \"\"\"\n        self.verifyCurrentContext(tokens, index)\n\n        try:\n            value =  (Convert2Num(tokens[index]))"),
  ("C11","M6-elapsed-from-zero","ioflo/base/framing.py","            self.elapsed = self.store.stamp - self.stamp\n","            self.elapsed = self.store.stamp - self.stamp + 0.0 * self.recurred if self.recurred else self.store.stamp\n"),
+ ("C11","M7-aux-reentry-keeps-clocks","ioflo/base/framing.py",
+  "        self.done = False #reset done state\n        self.activate(self.first)\n        self.enter(self.actives)\n",
+  "        again = self.schedule == AUX and self.done and self.stamp is not None and self.main is not None\n        self.done = False #reset done state\n        self.activate(self.first)\n        if again:\n            for frame in self.actives:\n                frame.enter()\n        else:\n            self.enter(self.actives)\n"),
+ ("C11","M8-over-frame-aux-not-segued","ioflo/base/framing.py",
+  "        for aux in self.auxes:\n            aux.segue()\n",
+  "        for aux in self.auxes:\n            if self is self.framer.active:\n                aux.segue()\n"),
+ ("C11","M9-aux-transition-restarts-main-timer","ioflo/base/framing.py",
+  "        for aux in self.auxes:\n            aux.segue()\n",
+  "        for aux in self.auxes:\n            if aux.segue():\n                self.framer.restartTimer()\n"),
+ ("C20","M8-entry-need-check-arms","ioflo/base/needing.py",
+  "            result = ((mark.stamp is None) or\n                      (share.stamp > mark.stamp) or\n                      (share.stamp == mark.stamp and mark.used != mark.stamp))\n",
+  "            result = ((mark.stamp is None) or\n                      (share.stamp > mark.stamp) or\n                      (share.stamp == mark.stamp and mark.used != mark.stamp))\n            if self._act.context == ActionContextNames[BENTER] and not result:\n                mark.stamp = self.store.stamp\n"),
  ("C13","M1-me-uses-main-framer","ioflo/base/acting.py",
   "                    if parts[1] == 'me': # current framer\n                        parts[1] = self.frame.framer.name",
   "                    if parts[1] == 'me': # current framer\n                        parts[1] = (self.frame.framer.main.framer.name if self.frame.framer.main else self.frame.framer.name)"),
